@@ -121,4 +121,9 @@ def sig_tuple(s):
     v = parse(s)
     assert isinstance(v, tuple) and v[0] == 'tuple' and len(v[1]) == 4, s
     p, q, site, cls = v[1]
+    if isinstance(cls, str) and (cls.startswith('<<') or cls.startswith('{')):
+        try:
+            cls = parse(cls)     # a class built with ToString(<<...>>): render it canonically
+        except Exception:
+            pass
     return [render(p), render(q), render(site), render(cls)]
